@@ -1,5 +1,5 @@
 From Coq Require Extraction ExtrOcamlBasic.
-From OxiVerif Require Import Base.Conv IO.Dddmp IO.DddmpFile.
+From OxiVerif Require Import Base.Conv IO.Dddmp IO.DddmpFile IO.DddmpTdd.
 Extraction Language OCaml.
 Extraction "model.ml" conv_anchor Dddmp.import_file Dddmp.import_bin Dddmp.import_ascii
   Dddmp.export_nodes Dddmp.encode_7bit Dddmp.decode_7bit Dddmp.escape Dddmp.unescape_all
@@ -7,4 +7,7 @@ Extraction "model.ml" conv_anchor Dddmp.import_file Dddmp.import_bin Dddmp.impor
   Dddmp.write_replacing_control Dddmp.replace_space_and_control Dddmp.trim Dddmp.dec
   Dddmp.st_store Dddmp.st_nodes Dddmp.split_node_code Dddmp.export_ascii_nodes
   DddmpFile.load_header DddmpFile.import_whole DddmpFile.import_whole_guarded
-  DddmpFile.print_header DddmpFile.header_of DddmpFile.utf8_lossy.
+  DddmpFile.print_header DddmpFile.header_of DddmpFile.utf8_lossy
+  DddmpTdd.tdd_import_whole DddmpTdd.tdd_import_whole_guarded DddmpTdd.tdd_export_nodes DddmpTdd.tdd_export_whole
+  DddmpTdd.tdd_anodes DddmpTdd.tdd_eval_root DddmpTdd.tdd_desc DddmpTdd.apply_setters DddmpTdd.binary_supported
+  DddmpTdd.export_ascii_mode DddmpTdd.tdd_arity.
